@@ -219,7 +219,14 @@ DT_SPELL = ["2020-01-02", "2020-01-02 03:04:05", "2020-01-02T03:04:05.000006", "
             "2020-13-45", "-", "nan", "NaN", " NAN ", " - ", "", "abc", "x2020", "2020", "12:30", "2020-01-02T00:00:00Z",
             "2020-01-02 00:00:00+01:00", "99999999999999999999", "1e400", "0", "²", "٣", "2020-02-30", "2262-04-12",
             "1677-01-01", "0001-01-01", "1", "1.5", "9" * 40, "2020-01-02 25:00"]
-TEXT_SPELL = ["", "a", " a ", "-", "nan", "None", "**x", ":a", "k:", "1.5", "é µ", "a;b", "*", "x" * 30, " ", "a\x00b", "z\x00", "\x00"]
+# UTC offsets of both signs with and without a minutes part, in the ISO spellings pandas reads
+OFFSET_SPELL = ["2020-08-04 08:00:00-03:30", "2020-08-04T08:00:00-09:30", "2020-08-04 08:00:00-00:30",
+                "2020-08-04 08:00:00+05:45", "2020-08-04T08:00:00+0530", "2020-08-04T08:00:00-0330",
+                "2020-08-04 08:00:00.5-03:30", "2020-08-04 08:00:00-11:00", "2020-08-04 08:00:00+14:00",
+                "2020-08-04 08:00-02:30", "2020-08-04T08:00:00.123456-04:30"]
+DT_SPELL = DT_SPELL + OFFSET_SPELL
+TEXT_SPELL = ["", "a", " a ", "-", "nan", "None", "**x", ":a", "k:", "1.5", "é µ", "a;b", "*", "x" * 30, " ", "a\x00b", "z\x00", "\x00",
+              "a\x0cb", "p\u2028q", "u\x85v", "r\x1cs", "v\x0bw"]
 
 
 def case_patterns(word):
